@@ -173,6 +173,13 @@ func Explore(c *vfw.Ctx, t *testing.T, sc Scenario, bound int) Stats {
 		c.Violate(sc.Name+":goroutine-leak", "scenario "+sc.Name+": library goroutines alive after Close:\n"+stacks[:min(len(stacks), 1500)], Replay{Scenario: sc.Name})
 		c.Abort("goroutine leak wedged the bubble")
 	}
+	var current []int
+	e2.OnWedge = func(stacks string) {
+		c.Violate(sc.Name+":wedged-execution", fmt.Sprintf("scenario %s: the execution with choice prefix %v made no progress for %v of real time (library goroutine spinning or blocked so that neither the scheduler nor virtual time can advance):\n%s", sc.Name, current, e2.WedgeAfter, stacks[:min(len(stacks), 3000)]),
+			Replay{Scenario: sc.Name, Choices: current})
+		c.Abort("wedged execution")
+	}
+	defer func() { e2.OnWedge = nil }()
 	handle := func(r Result, prefix []int) bool {
 		st.Execs++
 		c.Case(len(r.Trace) > 0)
@@ -223,6 +230,7 @@ func Explore(c *vfw.Ctx, t *testing.T, sc Scenario, bound int) Stats {
 			st.Complete = false
 			return
 		}
+		current = prefix
 		r := RunOnce(t, sc, prefix, onLeak)
 		if len(prefix) > 0 && len(r.Trace) >= len(prefix) && r.Trace[len(prefix)-1].Ineffective {
 			st.Pruned++ // the chosen select case was not ready: identical to the canonical choice
